@@ -364,13 +364,18 @@ fn check_holiday_record(ctx: &Ctx, civ: &Civil, recs: &[Rec], k: usize, steps: &
   for &n in steps {
     let t = k as i64 + n;
     loc.transitions += 1;
-    let want = if t >= 0 && (t as usize) < recs.len() { Some((recs[t as usize].y, recs[t as usize].m, recs[t as usize].d)) } else { None };
-    let g = guard(|| LegalHoliday::from_ymd(r.y as isize, r.m as usize, r.d as usize).unwrap().next(n as isize).map(|h| ymd_of(&h.get_day())));
+    let want = if t >= 0 && (t as usize) < recs.len() {
+      let x = &recs[t as usize];
+      Some(((x.y, x.m, x.d), x.work, tyme4rs::tyme::holiday::LEGAL_HOLIDAY_NAMES[x.idx.min(8)].to_string()))
+    } else {
+      None
+    };
+    let g = guard(|| LegalHoliday::from_ymd(r.y as isize, r.m as usize, r.d as usize).unwrap().next(n as isize).map(|h| (ymd_of(&h.get_day()), h.is_work(), h.get_name())));
     let skey = format!("{} n={:+}", key, n);
     match g {
       Ok(got) => {
         if got != want {
-          ctx.violation("holiday_next", skey, format!("next({}) = {:?}, table position {} + {} = {:?}", n, got.map(fmt_ymd), k, n, want.map(fmt_ymd)), rp.clone());
+          ctx.violation("holiday_next", skey, format!("next({}) = {:?} (date, work flag, name), table position {} + {} = {:?}", n, got, k, n, want), rp.clone());
         }
       }
       Err(m) => ctx.violation("holiday_next", skey, format!("panics: {}", m), rp.clone()),
